@@ -332,7 +332,8 @@ class PipelineSim(WorldBase):
                 evs.append(["stale", {"names": [s["tensor"] for s in tens], "rank": order[-1]}])
             evs.append(["call", {"fn": kind, "bindings": bindings, "tensors": [s["tensor"] for s in tens],
                                  "line_elems": line_elems, "cap_lines": cap_lines, "id": "c0",
-                                 "cap_frac": g.choice([0, 0, 1, 2, 3]) if kind == "cache" else 0}])
+                                 "cap_frac": g.choice([0, 0, 1, 2, 3]) if kind == "cache" else 0,
+                                 "cap_inf": kind == "cache" and cap_lines == 10 ** 4 and g.random() < 0.5}])
             if kind == "cache":
                 # capacity sweep for monotonicity
                 for c in sorted({0, 1, 2, 3, nlines, nlines + 1}):
@@ -662,8 +663,10 @@ class PipelineSim(WorldBase):
                     res = Traffic.buffetTraffic(bindings, fmts, trace_fns, 10 ** 9, line, **kw)
                 else:
                     # a capacity need not be a whole number of lines: the part of a line does not hold one
-                    res = Traffic.cacheTraffic(bindings, fmts, trace_fns,
-                                               a["cap_lines"] * line + (a.get("cap_frac", 0) * line) // 4, line, **kw)
+                    cap = a["cap_lines"] * line + (a.get("cap_frac", 0) * line) // 4
+                    if a.get("cap_inf"):
+                        cap = float("inf")        # "unbounded", spelled the other way
+                    res = Traffic.cacheTraffic(bindings, fmts, trace_fns, cap, line, **kw)
             elif fn == "filter":
                 if a["input"] not in self.traces or a["filter"] not in self.traces:
                     raise Skip("traces")
